@@ -81,6 +81,11 @@ func genC19(g *gen) {
 	for shape := 0; shape < 5; shape++ {
 		emit("echo", "info", "ok", shape)
 	}
+	// … and with only one of the two passwords configured (a mask must not depend on the OTHER password)
+	for shape := 0; shape < 2; shape++ {
+		g.emit("echo info ok - %s", hx(c19Sentinel(g, shape)))
+		g.emit("echo info ok %s -", hx(c19Sentinel(g, shape)))
+	}
 	// every run path at debug level against a co-operative fake (deepest reach), rotating password shapes
 	for i, sc := range c19Scenarios[1:] {
 		emit(sc, "debug", "ok", i)
@@ -140,9 +145,13 @@ func c19Variants(pw []byte) [][]byte {
 	add(url.QueryEscape(s))
 	add(base64.StdEncoding.EncodeToString(pw))
 	add(hex.EncodeToString(pw))
-	add(fmt.Sprintf("%v", pw)) // a []byte printed with %v
+	if len(pw) > 0 {
+		add(fmt.Sprintf("%v", pw)) // a []byte printed with %v
+	}
 	// the alphanumeric tail alone (a sentinel cut at a special character is still a leak)
-	add(s[len(s)-12:])
+	if len(s) >= 12 {
+		add(s[len(s)-12:])
+	}
 	return out
 }
 
